@@ -26,7 +26,7 @@ ASSUMPTIONS = [
     "pad widths int(halo/dx), int(halo/dy) (both neighbours accepted within 1e-9 of a whole number)",
     "an exception is an allowed outcome (the property says 'or raises'); silent misregistration is not",
 ]
-TOLERANCES = {"registration": "1e-12 * max|field| at level 0", "nesting": "(1e-12+256 eps G) * max|spectrum|", "coordinates": "1e-12 * domain"}
+TOLERANCES = {"registration": "1e-12 * max|field| at level 0", "nesting": "(1e-12+4096 eps G) * max|spectrum|", "coordinates": "1e-12 * domain"}
 BUDGET = {
     "quick": dict(examples=150, shards=1, enum_procs=8),
     "thorough": dict(examples=1500, shards=16, enum_procs=16),
